@@ -1,15 +1,20 @@
-(* Correspondence for C03.  model = spec by C03_exact, so every disagreement is a violation. *)
+(* Correspondence for C03.  model = spec by C03_exact, so every disagreement is a violation:
+   1 the chain validator, 2 the revocation validator's chain gate, 3 the signing path (a signature is produced
+   exactly when the signer's chain is a conforming code-signing chain valid at the signing time). *)
 From NCG Require Export Model.Cert.
 
 Record case := mk {
   c_id : Z; c_chain : list cert; c_sf : list (list bool); c_ss : list bool; c_st : option Z;
   c_impl : bool;   (* ValidateCodeSigningCertChain(chain, st) == nil *)
-  c_rev : Z        (* revocation validator with purpose CodeSigning: 1 results, 0 InvalidChainError, -1 not observed *)
+  c_rev : Z;       (* revocation validator with purpose CodeSigning: 1 results, 0 InvalidChainError, -1 not observed *)
+  c_sign : Z;      (* Sign() with a local signer holding the leaf's key, at signing time c_signst: 1 envelope, 0 error, 2 panic, -1 not observed *)
+  c_signst : Z
 }.
 
 Definition check_case (c : case) : verdict :=
   let sf := mat_sigfrom (c_sf c) in let ss := vec_selfsig (c_ss c) in
   if negb (Bool.eqb (validate_cs sf ss (c_st c) (c_chain c)) (c_impl c)) then (c_id c, 2, 1)
   else if (0 <=? c_rev c) && negb (Bool.eqb (validate_chain sf ss 0 (c_chain c)) (c_rev c =? 1)) then (c_id c, 2, 2)
+  else if (0 <=? c_sign c) && negb (Bool.eqb (validate_cs sf ss (Some (c_signst c)) (c_chain c)) (c_sign c =? 1)) then (c_id c, 2, 3)
   else (c_id c, 0, 0).
 Definition check_all := collect check_case.
